@@ -14,6 +14,12 @@ structure GenCfg where
   docs : Bool := true
   foreignAttrs : Bool := true
   keywordsAsNames : Bool := true
+  /-- out of 10: how often a type reference names a known alias (0 = no extra draw; C20) -/
+  aliasBias : Nat := 0
+  /-- out of 10: how often a definition is forced to be an alias of an anonymous type (0 = no extra draw; C20) -/
+  anonAliasBias : Nat := 0
+  /-- generate the definitions one by one into randomly chosen files, so that files reference each other (C20) -/
+  interleave : Bool := false
 
 /-- what earlier definitions a later one may refer to -/
 structure Known where
@@ -84,13 +90,18 @@ def spell (cur : String) (k : Known) : G String := do
 def keyPrims : List Prim := [.bool, .int8, .uint8, .int16, .uint16, .int32, .uint32, .varint32, .varuint32, .int64, .uint64, .varint62, .varuint62, .string]
 
 /-- `allowed` filters which known definitions may be referenced (containment must stay acyclic) -/
-partial def genTRef (cur : String) (depth : Nat) (allowOpt : Bool) : G TRef := do
+partial def genTRef (cur : String) (depth : Nat) (allowOpt : Bool) (forceAnon : Bool := false) : G TRef := do
   let attrs ← (do if ← coin 1 6 then return [← genForeignAttr] else return [])
   let opt ← (do if allowOpt then coin 1 3 else return false)
   let s ← get
-  let c ← below 10
+  let c ← (do if forceAnon && depth > 0 then return 7 + (← below 3) else below 10)
   let types := s.known.filter fun k => k.kind == "struct" || k.kind == "enum" || k.kind == "custom" || k.kind == "alias" || k.kind == "keyenum"
-  if c < 4 || (depth == 0 && types.isEmpty) then
+  let aliases := s.known.filter fun k => k.kind == "alias"
+  let useAlias ← (do if !forceAnon && s.cfg.aliasBias > 0 && !aliases.isEmpty then coin s.cfg.aliasBias 10 else return false)
+  if useAlias then
+    let k ← pickG aliases
+    return .mk attrs (.named (← spell cur k)) opt
+  else if c < 4 || (depth == 0 && types.isEmpty) then
     return .mk attrs (.prim (← pickG Prim.all)) opt
   else if c < 7 && !types.isEmpty then
     let k ← pickG types
@@ -158,6 +169,8 @@ def primBounds : Prim → Int × Int
 
 def genDef (fileIdx : Nat) (cur : String) : G Def := do
   let c ← below 10
+  let anonAlias ← (do if (← get).cfg.anonAliasBias > 0 then coin (← get).cfg.anonAliasBias 10 else return false)
+  let c := if anonAlias then 9 else c
   let doc ← genDoc
   let attrs ← genAttrs
   let maxM := (← get).cfg.maxMembers
@@ -246,7 +259,8 @@ def genDef (fileIdx : Nat) (cur : String) : G Def := do
     modify fun s => { s with known := s.known ++ [⟨cur, name, "custom", fileIdx⟩] }
     return .custom doc attrs name
   else
-    let ty ← genTRef cur (← get).cfg.typeDepth false
+    let td := (← get).cfg.typeDepth
+    let ty ← genTRef cur (if anonAlias then max 1 td else td) false anonAlias
     let name ← genName "T"
     modify fun s => { s with known := s.known ++ [⟨cur, name, "alias", fileIdx⟩] }
     return .alias doc attrs name ty
@@ -260,8 +274,28 @@ def genFile (fileIdx : Nat) : G SFile := do
   for _ in [0:n] do defs := defs ++ [← genDef fileIdx modPath]
   return { fileAttrs := fileAttrs, module := some ⟨modAttrs, modPath⟩, defs := defs }
 
+/-- files whose definitions are generated in one interleaved sequence: a later definition of file 0 may refer to an
+    earlier one of file 1 and vice versa (references between files in both directions) -/
+def genInterleaved : G Program := do
+  let cfg := (← get).cfg
+  let nf := (← below cfg.maxFiles) + 1
+  let mut files : Array SFile := #[]
+  for _ in [0:nf] do
+    let modPath ← pickG ["M", "M", "A", "A::B", "A::B::C", "N::M"]
+    let fileAttrs ← (do if cfg.foreignAttrs && (← coin 1 4) then return [← genForeignAttr] else return [])
+    let modAttrs ← (do if cfg.foreignAttrs && (← coin 1 6) then return [← genForeignAttr] else return [])
+    files := files.push { fileAttrs := fileAttrs, module := some ⟨modAttrs, modPath⟩, defs := [] }
+  let total ← below (cfg.maxDefs * nf + 1)
+  for _ in [0:total] do
+    let i ← below nf
+    let f := files[i]!
+    let d ← genDef i (match f.module with | some m => m.path | none => "")
+    files := files.set! i { f with defs := f.defs ++ [d] }
+  return files.toList
+
 def genProgram (cfg : GenCfg) (r : Rng) : Program × Rng :=
   let act : G Program := do
+    if cfg.interleave then return (← genInterleaved)
     let nf ← below cfg.maxFiles
     let mut fs := []
     for i in [0:nf + 1] do fs := fs ++ [← genFile i]
